@@ -46,6 +46,18 @@ def fieldwise(call):
     return bases[0] if len(set(bases)) == 1 else None
 
 
+def is_exact_zero_test(test, name):
+    """`X == fzero`, `X is fzero`, or `not X[1] and not X[2]` (zero mantissa AND zero exponent)"""
+    if isinstance(test, ast.Compare) and len(test.ops) == 1 and isinstance(test.ops[0], (ast.Eq, ast.Is)) and \
+            norm(test.left) == name and norm(test.comparators[0]) == 'fzero':
+        return True
+    if isinstance(test, ast.BoolOp) and isinstance(test.op, ast.And) and len(test.values) == 2:
+        parts = sorted(norm(v) for v in test.values)
+        if parts == sorted(['not %s[1]' % name, 'not %s[2]' % name]):
+            return True
+    return False
+
+
 def axis_delegation(f):
     """-> (ok, reason): the function unpacks its argument into (RE, IM) and, before IM reaches any
     kernel, tests `IM == fzero` and returns from real kernels of RE at the caller's (prec, rnd)"""
@@ -55,9 +67,11 @@ def axis_delegation(f):
         return False, 'argument is not unpacked into (real, imaginary) first'
     re_, im_ = [norm(e) for e in body[0].targets[0].elts]
     for st in body[1:]:
-        if isinstance(st, ast.If) and isinstance(st.test, ast.Compare) and len(st.test.ops) == 1 and \
-                isinstance(st.test.ops[0], (ast.Eq, ast.Is)) and norm(st.test.left) == im_ and \
-                norm(st.test.comparators[0]) == 'fzero':
+        if isinstance(st, ast.If) and norm(st.test) in ('not %s[1]' % im_, 'not %s[1]' % re_):
+            which = im_ if norm(st.test).endswith(im_ + '[1]') else re_
+            return False, ('the axis shortcut tests only the mantissa (`%s`), which is also zero for inf and '
+                           'nan: special values are treated as 0' % norm(st.test))
+        if isinstance(st, ast.If) and is_exact_zero_test(st.test, im_):
             rets = [x for s2 in st.body for x in ast.walk(s2) if isinstance(x, ast.Return)]
             if not rets:
                 return False, 'the zero-imaginary-part branch does not return'
@@ -127,6 +141,11 @@ def run(run, ix, tier):
     if len(g.findings) != 1:
         raise AnalysisError('B-R9 detector does not recognise its positive example')
     check_guard_bits(run, ix, 'B-R9')
+    # ---- B-R4i: the sticky/exact-root idioms that make sqrt of a perfect square exact (rule of C02)
+    from ..report import SubRun
+    from . import c02
+    run.rule('B-R4i', floor=3, desc='exact-remainder idioms of division and square root')
+    c02.check_sticky_idioms(SubRun(run, keep=('B-R4i',)), ix)
     # ---- B-R8: real-axis delegation of the complex exp/trig family ---------------------------------
     run.rule('B-R8', floor=10, desc='complex exp/trig kernels delegate real-axis arguments to the real kernel')
     for name in AXIS_FAMILY:
